@@ -170,7 +170,7 @@ func draw(rt *rapid.T) Scenario {
 		a := rapid.Int64Range(3600, window-3600).Draw(rt, "upgapAt")
 		sc.UpGapS = append(sc.UpGapS, [2]int64{-a, -a + rapid.Int64Range(600, 3000).Draw(rt, "upgapLen")})
 	}
-	nr := rapid.IntRange(1, 4).Draw(rt, "nrules")
+	nr := rapid.IntRange(1, detsim.Scale(4, 6)).Draw(rt, "nrules")
 	for i := 0; i < nr; i++ {
 		r := RuleSpec{Expr: drawExpr(rt, nm)}
 		switch rapid.IntRange(0, 5).Draw(rt, "rkind") {
@@ -199,7 +199,7 @@ func draw(rt *rapid.T) Scenario {
 		sc.Rules = append(sc.Rules, r)
 	}
 	if rapid.IntRange(0, 3).Draw(rt, "multiround") == 0 {
-		nrounds := rapid.IntRange(1, 2).Draw(rt, "rounds")
+		nrounds := rapid.IntRange(1, detsim.Scale(2, 4)).Draw(rt, "rounds")
 		for r := 0; r < nrounds; r++ {
 			rs := RoundSpec{GapS: rapid.Int64Range(900, 4*3600).Draw(rt, "gap")}
 			for range sc.Metrics {
